@@ -256,7 +256,7 @@ func NewReverseInnerSearcher(
 	}
 
 	// Create PikeVM for fallback (uses full pattern)
-	pikevm := nfa.NewPikeVM(fullNFA)
+	pikevm := nfa.NewSharedPikeVM(fullNFA)
 
 	// Detect universal prefix/suffix for Find optimization
 	// For patterns like `.*connection.*`:
